@@ -204,6 +204,10 @@ type Engine struct {
 	// of a package when its initial state is evaluated (EvalInits).
 	RunOnce      bool
 	RunInitFuncs bool
+	// TrackWrites records a "write-nonlocal" event for every store into storage
+	// that was not allocated during the run (package-level variables, pointees
+	// of arguments): the footprint of a function on state that outlives it.
+	TrackWrites bool
 	// PruneByFacts drops a branch whose condition is refuted, in integer linear
 	// arithmetic, by the conditions already on the path (n < 40 refutes n >= 128).
 	PruneByFacts bool
@@ -601,6 +605,11 @@ func (e *Engine) store(st *State, p *Ptr, v Val) string {
 	nv, ok := updatePath(e.cellVal(st, p.Cell), p.Path, v)
 	if !ok {
 		return "store: bad path " + p.Key()
+	}
+	if e.TrackWrites && !p.Cell.Alloc && !e.inInit {
+		// a write to storage that was not allocated during this run: a
+		// package-level variable or something reached through an argument
+		st.addEvent(Event{Kind: "write-nonlocal", Fn: p.Cell.Name, Recv: p, Args: []Val{v}})
 	}
 	st.mem[p.Cell] = nv
 	return ""
